@@ -516,6 +516,7 @@ def run(pid, P, t0, tmpdir):
                 # reported (each one is confirmed on its own by fresh-process replays below)
                 log("INFRA determinism gate failed for %s: %s" % (e["id"], est["determinism_gate"]))
                 gate_failed.append(e["id"])
+                agg.setdefault("gate_failed", []).append(e["id"])
         agg["engines"][e["id"]] = est
 
     # 3. violation pipeline: gate, minimise, replay file
@@ -663,6 +664,7 @@ def write_evidence(pid, P, tier, seed, agg, distinct, sample_mod, violations, wa
         "wall_s": round(wall, 2),
         "build_s": round(t_build, 2),
         "violations": len(violations),
+        "no_verdict_engines": list(agg.get("gate_failed", [])),
     }
     os.makedirs(os.path.join(OUT, "evidence"), exist_ok=True)
     p = os.path.join(OUT, "evidence", pid + ".json")
